@@ -52,7 +52,8 @@ def cells(tier, seed):
         for J in ([rnd.choice([1, 2, 3])] if tier == 'quick' else [1, 2, 3]):
             ms = [L // 2, L // 2 + 1, L // 2 + 3] if tier == 'quick' else [L // 2 + i for i in range(6)]
             for m in (rnd.sample(ms, 2) if tier == 'quick' else ms):
-                out.append({'dim': 1, 'wave': w, 'mode': 'periodization', 'J': J, 'shape': [m * 2 ** J], 'N': 2, 'C': 2})
+                out.append({'dim': 1, 'wave': w, 'mode': rnd.choice(['periodization', 'periodization', 'per']), 'J': J,
+                            'shape': [m * 2 ** J], 'N': 2, 'C': 2})
         if L <= (12 if tier == 'quick' else 16):
             for _ in range(1 if tier == 'quick' else 6):
                 J = rnd.choice([1, 2])
@@ -129,6 +130,31 @@ def run_cell(cell, seed):
         out.append(res(HELD, case, 'M-ENERGY', ratio=ratio) if max(e1, e2) <= t else
                    res(VIOLATED, case, 'M-ENERGY', 'energy off by %.3e, inner product off by %.3e (tol %.3e)' % (e1, e2, t),
                        ratio=ratio))
+    # history: both modules reloaded in place with another orthogonal wavelet of the same length
+    other = [w2 for w2 in ortho_wavelets() if w2 != w and refs.flen(w2) == L and pywt.Wavelet(w2).dec_lo != pywt.Wavelet(w).dec_lo]
+    if other:
+        cell2 = dict(cell, wave=other[0], reloaded_from=w)
+        f2, i2 = c01.build(cell), c10.build(cell)
+        x = util.make_input('randn', [cell['N'], cell['C']] + sp, seed + 11)
+        ok, p = util.call_lib(f2, x)
+        if ok and util.call_lib(i2, p)[0]:
+            f2.load_state_dict(c01.build(cell2).state_dict())
+            i2.load_state_dict(c10.build(cell2).state_dict())
+            case = {'cell': cell2, 'check': 'reload: energy and inverse'}
+            ok, p = util.call_lib(f2, x)
+            ok2, r = util.call_lib(i2, p) if ok else (False, None)
+            if not (ok and ok2):
+                out.append(res(VIOLATED, case, 'M-ENERGY', 'raised after an in-place filter reload'))
+            else:
+                fx = np.concatenate([util.np64(t).ravel() for t in util.flat_outputs(p)])
+                xn = util.np64(x).ravel()
+                tol2 = 50 * (J * dim * defect(other[0]) + util.EPS64) * max(G, 1.0) ** 2 * 4
+                e1 = abs(float(fx @ fx) - float(xn @ xn)) / max(float(xn @ xn), 1e-300)
+                e2 = float(np.abs(util.np64(r).ravel() - xn).max()) / max(float(np.abs(xn).max()), 1e-300)
+                ratio = max(e1, e2) / tol2
+                out.append(res(HELD, case, 'M-ENERGY', ratio=ratio) if ratio <= 1 else
+                           res(VIOLATED, case, 'M-ENERGY', 'after reload: relative energy error %.3e, reconstruction error %.3e' % (e1, e2),
+                               ratio=ratio))
     # back-propagating a cotangent == inverse transform of the cotangent
     case = {'cell': cell, 'check': 'backward == inverse'}
     x = util.make_input('randn', [cell['N'], cell['C']] + sp, seed + 2).requires_grad_(True)
